@@ -1,9 +1,11 @@
 mod c14;
+mod c18;
 mod common;
 fn main() {
     let ctx = vcore::Ctx::from_args();
     match ctx.prop.as_str() {
         "C14" => c14::run(&ctx),
+        "C18" => c18::run(&ctx),
         other => {
             eprintln!("MACHINERY: vk-stream does not serve property {other:?}");
             std::process::exit(2)
